@@ -114,36 +114,42 @@ Proof. eexists. split; vm_compute; reflexivity. Qed.
    False in general: C36_interleaved_refuted.
    PROVED: one classic histogram read from the start state under its TYPE line — the bucket,
    count and sum series of one label set in any order the TempHistogram accepts, any number of
-   them — and ended by a TYPE/HELP/UNIT/comment entry or by the end of input: its series are
-   swallowed and exactly one histogram is emitted, namely the conversion of the accumulated
-   TempHistogram, with the label set minus le under the base name, the timestamp of the series
-   and the start timestamp of the first series.  Missing: series carrying exemplars (the
-   exemplar buffer, see C36_exemplars_refuted), collections ended by a float series (there the
-   timestamp is wrong, C36_timestamp_refuted), several histograms in a row. *)
-Theorem C36_one_per_histogram_partial : forall parse_le c, keep_classic c = false ->
+   them, each with any number of exemplars — and ended by a TYPE/HELP/UNIT/comment entry or by
+   the end of input: its series are swallowed and exactly one histogram is emitted, namely the
+   conversion of the accumulated TempHistogram, with the label set minus le under the base
+   name, the timestamp of the series, the start timestamp of the first series and all
+   exemplars of the series in order.  The hypothesis on exemplar writes holds for parsers that
+   assign every field of the exemplar and, since repair 3, for OpenMetricsParser as well
+   (without it: C36_exemplars_refuted (b)).  Missing: collections ended by a float series
+   (pre-repair the timestamp is wrong there, C36_timestamp_refuted), several histograms in a
+   row (the buffer is then not empty but re-used). *)
+Theorem C36_one_per_histogram_partial : forall parse_le c,
+  keep_classic c = false -> ex_partial c = false \/ fix_exzero c = true ->
   forall n key m0 ms p t' nh,
   p_state p = SStart -> p_typ p = T_HISTOGRAM -> p_bname p = n -> p_tmp p = th_empty ->
-  eb_cnt (p_ex p) = 0%nat ->
-  Forall (good_member parse_le n key) (m0 :: ms) ->
+  full 0 (p_ex p) ->
+  Forall (member_ok parse_le n key) (m0 :: ms) ->
   apply_all th_empty (m0 :: ms) = Some t' ->
   convert t' = Some nh -> validate nh = true ->
   let hist := ONhcb (mkS (metric_base (s_lset (m_sample m0)) n)
                          (last (map (fun m => s_ts (m_sample m)) (m0 :: ms)) None)
-                         (if parse_st c then s_st (m_sample m0) else 0) []) nh in
+                         (if parse_st c then s_st (m_sample m0) else 0)
+                         (all_ex (m0 :: ms))) nh in
   (forall e, is_meta e = true ->
      snd (run_from parse_le c p (map to_series (m0 :: ms) ++ [e])) = [hist; to_o e]) /\
   (let '(p', out) := run_from parse_le c p (map to_series (m0 :: ms)) in
    out ++ snd (process_nhcb c p') = [hist]).
-Proof. exact one_histogram. Qed.
+Proof. exact one_histogram_ex. Qed.
 
 Example one_histogram_nonvacuous :
   fst (run le_tab (cfg_found false false false)
-         [BType "h" T_HISTOGRAM; ser "h_bucket" [("a", "x"); ("le", "1")] (Some 1000) [] 16;
+         [BType "h" T_HISTOGRAM; ser "h_bucket" [("a", "x"); ("le", "1")] (Some 1000) [(7, Some 10); (8, None)] 16;
           ser "h_bucket" [("a", "x"); ("le", "+Inf")] (Some 1000) [] 40;
           ser "h_count" [("a", "x")] (Some 1000) [] 40; ser "h_sum" [("a", "x")] (Some 1000) [] 60;
           BOther 1 "g" "help"] true) =
   [OType "h" T_HISTOGRAM;
-   ONhcb (mkS [("__name__", "h"); ("a", "x")] (Some 1000) 0 []) (mkNH false 40 (Fin 60) [Fin 8] [16; 24]);
+   ONhcb (mkS [("__name__", "h"); ("a", "x")] (Some 1000) 0 [(7, Some 10); (8, None)])
+         (mkNH false 40 (Fin 60) [Fin 8] [16; 24]);
    OOther 1 "g" "help"].
 Proof. vm_compute. reflexivity. Qed.
 
